@@ -54,18 +54,18 @@ type createdRec struct {
 
 // World is one simulated cluster.
 type World struct {
-	S         *simapi.Store
-	Ctl       *kit.Controllers
-	R         *rand.Rand
-	Ctx       *core.Ctx
-	Mon       *Monitors
-	User      *simapi.Client
-	Behav     map[string]*NodeBehaviour
+	S     *simapi.Store
+	Ctl   *kit.Controllers
+	R     *rand.Rand
+	Ctx   *core.Ctx
+	Mon   *Monitors
+	User  *simapi.Client
+	Behav map[string]*NodeBehaviour
 	// ForceStuck[node]: terminating pods of that node are never finalised, also while the kubelet is cooperative
 	// (scripted phases: one unresponsive node in an otherwise healthy cluster)
 	ForceStuck map[string]bool
-	Coop      bool // cooperative kubelet: ignore hostile knobs
-	nestSteps []string
+	Coop       bool // cooperative kubelet: ignore hostile knobs
+	nestSteps  []string
 	// c11Keys: keys of the faultable calls in the order they reached the seam (fault engine)
 	c11Keys []string
 	// CreatedFor["ns/podname"]: see createdRec
